@@ -174,8 +174,8 @@ Definition teardown (force : bool) (e : N) (s : st) : tdres :=
           (* task hooks of each weight, only those whose role is still ACTIVE *)
           let trig_groups := map (fun g => filter (active_in r1) (group_tasks e g)) groups in
           let trigs := concat trig_groups in
-          (* the release message is overwritten at every weight: only the last one is sent *)
-          let lastmsg := match groups with [] => torelease | _ => last trig_groups [] end in
+          (* the second release names the DESTROY hook tasks of every weight, ACTIVE or not *)
+          let lastmsg := hooktids in
           let envs1 := upd_env e (set_pend 0) (s_envs s) in       (* cancelCallsPendingAwait *)
           let '(r2, n2) := release e lastmsg r1 in
           if negb (N.eqb n2 0) then mkTd (mkSt envs1 r2 (s_snaps s)) false calls trigs (Some r1)
@@ -235,7 +235,7 @@ Record cspec := mkSpec {
 
 Definition launch_task (e : N) (ir : N * role) : task :=
   mkTask (tid_of e (fst ir)) (Some e) (N.eqb (r_launch (snd ir)) 0)
-         (if N.eqb (r_launch (snd ir)) 1 then TS_ERROR else TS_STANDBY).
+         (if N.eqb (r_launch (snd ir)) 1 then TS_ERROR else TS_STANDBY) true.
 
 (* entry of CreateEnvironment *)
 Definition snap (e : N) (missing : bool) (s : st) : st * out :=
@@ -307,7 +307,7 @@ Definition control (e : N) (ev : N) (fail : bool) (s : st) : st * out :=
       | None => (s, out_rc 1)
       | Some (src, dst, tdst) =>
           if negb (N.eqb (e_state x) src) then
-            let '(s', rc) := go_error e s in (s', out_rc rc)
+            let '(s', _) := go_error e s in (s', out_rc 1)   (* the error of the requested transition is returned *)
           else
             let pend' := if N.eqb ev 1 then e_pend x + pend_roles x else e_pend x in
             let s1 := with_envs s (upd_env e (set_pend pend') (s_envs s)) in
@@ -315,8 +315,8 @@ Definition control (e : N) (ev : N) (fail : bool) (s : st) : st * out :=
             if ok then
               (mkSt (upd_env e (set_estate dst) (s_envs s1)) r' (s_snaps s), mkOut 0 [] targets [] [] 0 [])
             else
-              let '(s2, rc) := go_error e (with_roster s1 r') in
-              (s2, mkOut rc [] targets [] [] 0 [])
+              let '(s2, _) := go_error e (with_roster s1 r') in
+              (s2, mkOut 1 [] targets [] [] 0 [])
       end
   end.
 
@@ -384,7 +384,8 @@ Inductive op :=
 | ODestroy (e : N) (force allow keep tfail : bool)
 | OCleanup
 | OKill (ids : list tid)
-| ODies (t : tid).
+| ODies (t : tid)
+| OFail (ids : list tid).   (* the executor (or the agent) running exactly these tasks failed *)
 
 Definition step (s : st) (o : op) : st * out :=
   match o with
@@ -399,6 +400,7 @@ Definition step (s : st) (o : op) : st * out :=
   | OCleanup => let '(r', k) := cleanup (s_roster s) in (with_roster s r', mkOut 0 k [] [] [] 0 [])
   | OKill ids => let '(r', k) := kill_tasks ids (s_roster s) in (with_roster s r', mkOut 0 k [] [] [] 0 [])
   | ODies t => (with_roster s (task_dies t (s_roster s)), out_rc 0)
+  | OFail ids => (with_roster s (fail_tasks ids (s_roster s)), out_rc 0)
   end.
 
 (* the environment a request is issued for *)
